@@ -51,6 +51,26 @@ fn gen_tx(rng: &mut Rng, cfg: &Cfg) -> Tx {
     loop {
         let n = rng.range(0, 300);
         bits = gen_bits(rng, n);
+        if !cfg.checksum || cfg.fix_bits {
+            // Without a checksum every octet-aligned run between two flag patterns is a
+            // valid frame by definition, and with single-bit fixing a junk frame is
+            // accepted with probability ~ 8*len/65536, which thousands of transmissions
+            // do hit. In those settings the noise must not contain flag or abort
+            // patterns at all: break every run of five ones. (Noise with flag patterns
+            // is exercised with checksum on and fixing off.)
+            let mut ones = 0;
+            for b in bits.iter_mut() {
+                if *b == 1 {
+                    ones += 1;
+                    if ones == 5 {
+                        *b = 0;
+                        ones = 0;
+                    }
+                } else {
+                    ones = 0;
+                }
+            }
+        }
         let mut probe = bits.clone();
         probe.push(0); // exactly what is transmitted after the noise
         probe.extend(FLAG);
@@ -90,7 +110,18 @@ fn gen_tx(rng: &mut Rng, cfg: &Cfg) -> Tx {
         };
         let payload = gen_payload(rng, plen);
         let l = plen + extra;
-        bits.extend(body_bits(&payload, cfg.checksum));
+        // A well-formed frame whose CRC field is wrong by one bit: must be
+        // rejected (or repaired with fix-bits) and must not disturb the next
+        // frame, even when that frame's only opening flag is this one's closing flag.
+        let bad_crc = cfg.checksum && l >= cfg.min && l < cfg.max && l >= 2 && rng.chance(1, 4);
+        if bad_crc {
+            let mut bytes = payload.clone();
+            let c = crc16_x25(&payload) ^ (1u16 << rng.below(16));
+            bytes.extend(c.to_le_bytes());
+            bits.extend(stuff(&bytes_to_bits_lsb(&bytes)));
+        } else {
+            bits.extend(body_bits(&payload, cfg.checksum));
+        }
         // closing flag(s)
         let oversize = l >= cfg.max;
         let nflags = if oversize || rng.chance(1, 2) { rng.range(2, 3) } else { 1 };
@@ -101,8 +132,13 @@ fn gen_tx(rng: &mut Rng, cfg: &Cfg) -> Tx {
         let at_upper = l == cfg.max && l >= cfg.min;
         // a frame too short to hold a CRC can never be valid with checksum on
         let crc_possible = !cfg.checksum || l >= 2;
-        descr.push(format!("L={l}{}", if nflags == 1 { " shared-flag" } else { "" }));
-        if within && crc_possible {
+        descr.push(format!("L={l}{}{}", if nflags == 1 { " shared-flag" } else { "" }, if bad_crc { " bad-crc" } else { "" }));
+        if bad_crc {
+            // never demanded; with fix-bits a repair to the original is allowed
+            if cfg.fix_bits {
+                expected.push((payload, true));
+            }
+        } else if within && crc_possible {
             expected.push((payload, false));
         } else if at_upper && crc_possible {
             expected.push((payload, true));
@@ -181,22 +217,45 @@ fn compare(got: &[Vec<u8>], tx: &Tx, cfg: &Cfg) -> Option<(String, String)> {
     // With min_size 0 and no checksum, the idle fill between adjacent flags is
     // a zero-length frame within the configured bounds: ignore empty packets.
     let got: Vec<&Vec<u8>> = got.iter().filter(|p| !(p.is_empty() && cfg.min == 0 && !cfg.checksum)).collect();
-    let mut gi = 0;
-    for (k, (want, optional)) in tx.expected.iter().enumerate() {
-        if want.is_empty() && cfg.min == 0 && !cfg.checksum {
-            continue;
-        }
-        if gi < got.len() && got[gi] == want {
-            gi += 1;
-        } else if *optional {
-            continue;
-        } else {
-            let class = if got.iter().any(|g| *g == want) { "frame-out-of-order-or-duplicated" } else { "valid-frame-not-recovered" };
-            return Some((class.into(), format!("expected frame #{k} ({} bytes) not delivered at position {gi}; got {} packets, expected {} (frames: {:?})", want.len(), got.len(), tx.expected.len(), tx.descr)));
+    // Expected entries are required or optional (length exactly at the upper
+    // bound; a bad-CRC frame that fix-bits may repair). `got` must be the
+    // required ones in order, with any of the optional ones interleaved in place.
+    let exp: Vec<(&Vec<u8>, bool)> = tx
+        .expected
+        .iter()
+        .filter(|(w, _)| !(w.is_empty() && cfg.min == 0 && !cfg.checksum))
+        .map(|(w, o)| (w, *o))
+        .collect();
+    fn matches(got: &[&Vec<u8>], exp: &[(&Vec<u8>, bool)]) -> bool {
+        match exp.split_first() {
+            None => got.is_empty(),
+            Some(((w, optional), rest)) => {
+                let take = !got.is_empty() && got[0] == *w && matches(&got[1..], rest);
+                take || (*optional && matches(got, rest))
+            }
         }
     }
-    if gi < got.len() {
-        return Some(("unexpected-frame-emitted".into(), format!("{} packets emitted beyond the expected ones; first extra has {} bytes (frames: {:?}; got lengths {:?}; expected {:?})", got.len() - gi, got[gi].len(), tx.descr, got.iter().map(|g| g.len()).collect::<Vec<_>>(), tx.expected.iter().map(|e| (e.0.len(), e.1)).collect::<Vec<_>>())));
+    if !matches(&got, &exp) {
+        let required: Vec<&Vec<u8>> = exp.iter().filter(|e| !e.1).map(|e| e.0).collect();
+        let missing = required.iter().find(|w| !got.contains(w));
+        let extra = got.iter().find(|g| !exp.iter().any(|e| e.0 == **g));
+        let class = if let Some(_) = extra {
+            "unexpected-frame-emitted"
+        } else if missing.is_some() {
+            "valid-frame-not-recovered"
+        } else {
+            "frame-out-of-order-or-duplicated"
+        };
+        return Some((
+            class.into(),
+            format!(
+                "delivered {} packets (lengths {:?}), expected (length, optional) {:?}; frames sent: {:?}",
+                got.len(),
+                got.iter().map(|g| g.len()).collect::<Vec<_>>(),
+                exp.iter().map(|e| (e.0.len(), e.1)).collect::<Vec<_>>(),
+                tx.descr
+            ),
+        ));
     }
     None
 }
@@ -328,7 +387,16 @@ pub fn main(opts: &Opts) -> Report {
             match deframe_oneshot(&c, &cfg) {
                 Err(e) => rep.violation(format!("C13|corrupted|panic-or-error|{}", sig_of_msg(&e)), format!("{e}; payload {} bytes, flips at {a},{b:?}", plen), replay),
                 Ok(got) => {
-                    let raw = reference_deframe(&c);
+                    // Raw frames on the corrupted line as the block itself frames them
+                    // (a second deframer with checksum checking off). The harness's own
+                    // reference deframer disagrees with the block on corner cases that two
+                    // flips can create (flags sharing a zero, aborts), which is not what
+                    // this part is about; framing is judged by the clean part.
+                    let raw_cfg = Cfg { min: 2, max: cfg.max, checksum: false, fix_bits: false };
+                    let raw: Vec<(Vec<u8>, usize)> = match deframe_oneshot(&c, &raw_cfg) {
+                        Ok(v) => v.into_iter().map(|f| (f, 0)).collect(),
+                        Err(_) => reference_deframe(&c),
+                    };
                     for p in &got {
                         if *p == payload {
                             rep.count(if fix { "corrupted_repaired_to_original" } else { "corrupted_original_delivered" }, 1);
